@@ -177,6 +177,8 @@ class Ref:
             for n in g[1]:
                 env2[n] = ("v", next(self.counter))
             return self.conj(g[2:], env2, st, depth)
+        if k == "condv":
+            g = ["cond"] + list(g[1:]); k = "cond"
         if k == "mapsum":
             return self.conj([["cond"] + [["eq", l[0], v] for v in l[1:]] for l in g[1:]], env, st, depth)
         if k == "reuse":
